@@ -5,6 +5,7 @@ commits of this property, with Lean-checked counterexamples of the statements th
 corpus/C17/*.case keep the inputs, and reverting a fix makes `./check C17` report a VIOLATION on them.
 -/
 import NV.C17.Model
+import NV.C17.Props
 
 namespace NV.C17
 
@@ -217,3 +218,52 @@ theorem include_shadowing_not_seen : ¬ IncludesResolveAsRecorded_Full := by
   simp at this
 
 end NV.C17
+
+namespace NV.C17
+
+/-! ### 9. open finding C17-unsaved-parent-include-shadowed: the include of an UNSAVED parent is shadowed -/
+
+/-- the full statement: when a binary is used, every include directive of a program it inherits (a directive whose
+    present resolution is one of the files that program in memory was built from) resolves to the same file as in the
+    world `w0` in which the binary was saved — provided no file that existed then has changed its time -/
+def ParentDirectivesResolveAsAtSave_Full : Prop :=
+  ∀ (w0 w : World) (name : String) (b : BinFile) (i q : String) (lp : LoadedProg) (cands : List String),
+    loadBinary w name = .use → w.bins.lookup (binPath w name) = some b → i ∈ b.inherits → Reach w i q →
+    w.progs.lookup q = some lp → (∀ r, resolveInclude w cands = some r → r ∈ lp.files) →
+    (∀ c, c ∈ w0.files.map (·.1) → w.mtime c = w0.mtime c) →
+      resolveInclude w cands = resolveInclude w0 cands
+
+def pshadowBin : BinFile :=
+  { magic := magicId, driverId := driverId, configId := 0, includes := [], name := "d/a.c", inherits := ["d/b.c"] }
+
+/-- when a's binary was saved -/
+def pshadowWorld0 : World :=
+  { files := [("d/a.c", 100), ("d/b.c", 95), ("include/s.h", 90)], binOf := fun n => if n = "d/a.c" then "B/a" else "B/b" }
+
+/-- later: d/s.h has appeared (time 80, older than everything); b, which has no binary, was compiled again and read d/s.h -/
+def pshadowWorld : World :=
+  { files := [("B/a", 200), ("d/a.c", 100), ("d/b.c", 95), ("include/s.h", 90), ("d/s.h", 80)],
+    bins := [("B/a", pshadowBin)],
+    progs := [("d/b.c", { files := ["d/b.c", "d/s.h"], inherits := [] })],
+    loaded := ["d/b"], binOf := fun n => if n = "d/a.c" then "B/a" else "B/b", objOf := fun n => if n = "d/b.c" then "d/b" else "?" }
+
+theorem pshadow_facts :
+    loadBinary pshadowWorld "d/a.c" = .use ∧ pshadowWorld.bins.lookup (binPath pshadowWorld "d/a.c") = some pshadowBin ∧
+      pshadowWorld.progs.lookup "d/b.c" = some { files := ["d/b.c", "d/s.h"], inherits := [] } ∧
+      resolveInclude pshadowWorld ["d/s.h", "include/s.h"] = some "d/s.h" ∧
+      resolveInclude pshadowWorld0 ["d/s.h", "include/s.h"] = some "include/s.h" ∧
+      (∀ c, c ∈ pshadowWorld0.files.map (·.1) → pshadowWorld.mtime c = pshadowWorld0.mtime c) := by
+  decide
+
+/-- a's binary (laid out for b as built from include/s.h) is used although b is now built from d/s.h -/
+theorem unsaved_parent_include_shadowing_not_seen : ¬ ParentDirectivesResolveAsAtSave_Full := by
+  intro h
+  obtain ⟨h1, h2, h3, h4, h5, h6⟩ := pshadow_facts
+  have := h pshadowWorld0 pshadowWorld "d/a.c" pshadowBin "d/b.c" "d/b.c" _ ["d/s.h", "include/s.h"] h1 h2
+    (by simp [pshadowBin]) (Reach.refl _) h3 (by intro r hr; rw [h4] at hr; cases hr; simp)
+    h6
+  rw [h4, h5] at this
+  simp at this
+
+end NV.C17
+
